@@ -3,6 +3,9 @@
 -/
 import BB.Proofs.Sequence
 import BB.Model.Tools
+import BB.Proofs.G3Sort
+import BB.Proofs.G3Prep
+import BB.Proofs.G3Check
 
 namespace BB.C07
 open BB
@@ -95,8 +98,405 @@ theorem no_SR_raises (s : Sequence) (h : Dict.has s.awgspecs "SR" = false) :
   · intro d f t; simp [Sequence.forge, hc]
   · simp [Sequence.prepareForOutputting, hc, bind, Except.bind]
 
+/-! ### the gate, converse direction: whatever returns has passed `checkConsistency` -/
+
+open BB.Sequence (Deferred AWGPkg SEQXPkg)
+
+/-- `forge` returns only for a sequence on which `checkConsistency` returns True -/
+theorem forge_ok_consistent (s : Sequence) (d f t : Bool) (out : List (Nat × ForgedPos))
+    (h : s.forge d f t = .ok out) : s.checkConsistency = .ok true := by
+  unfold Sequence.forge at h
+  split at h
+  · cases h
+  · cases h
+  · assumption
+
+/-- the `channels` query returns only for a consistent sequence -/
+theorem channels_ok_consistent (s : Sequence) (chs : List Chan) (h : s.channels = .ok chs) :
+    s.checkConsistency = .ok true :=
+  (G3.channels_inv s chs h).1
+
+/-- `_prepareForOutputting` returns only for a consistent sequence -/
+theorem prepare_ok_consistent (s : Sequence) (P : List (Dict Chan ChOutF))
+    (h : s.prepareForOutputting = .ok P) : s.checkConsistency = .ok true := by
+  obtain ⟨_, _, _, _, _, hcc, _⟩ := G3.prepare_inv s P h
+  exact hcc
+
+/-- every output method starts with `_prepareForOutputting` -/
+theorem awg_ok_prepare (s : Sequence) (d : Deferred AWGPkg) (h : s.outputForAWGFile = .ok d) :
+    ∃ P, s.prepareForOutputting = .ok P := by
+  unfold Sequence.outputForAWGFile at h
+  split at h
+  · cases h
+  · rename_i P hP; exact ⟨P, hP⟩
+
+/-- every output method starts with `_prepareForOutputting` (SEQX) -/
+theorem seqx_ok_prepare (s : Sequence) (d : Deferred SEQXPkg) (h : s.outputForSEQXFile = .ok d) :
+    ∃ P, s.prepareForOutputting = .ok P := by
+  unfold Sequence.outputForSEQXFile at h
+  split at h
+  · cases h
+  · rename_i P hP; exact ⟨P, hP⟩
+
+/-- every output method starts with `_prepareForOutputting` (SEQX with flags) -/
+theorem seqxFlags_ok_prepare (s : Sequence) (d : Deferred SEQXPkg) (h : s.outputForSEQXFileWithFlags = .ok d) :
+    ∃ P, s.prepareForOutputting = .ok P := by
+  unfold Sequence.outputForSEQXFileWithFlags at h
+  split at h
+  · cases h
+  · rename_i P hP; exact ⟨P, hP⟩
+
+/-- `outputForAWGFile` returns (a package, or a package pending range obligations) only for a
+    consistent sequence -/
+theorem awg_ok_consistent (s : Sequence) (d : Deferred AWGPkg) (h : s.outputForAWGFile = .ok d) :
+    s.checkConsistency = .ok true := by
+  obtain ⟨P, hP⟩ := awg_ok_prepare s d h
+  exact prepare_ok_consistent s P hP
+
+/-- `outputForSEQXFile` returns only for a consistent sequence -/
+theorem seqx_ok_consistent (s : Sequence) (d : Deferred SEQXPkg) (h : s.outputForSEQXFile = .ok d) :
+    s.checkConsistency = .ok true := by
+  obtain ⟨P, hP⟩ := seqx_ok_prepare s d h
+  exact prepare_ok_consistent s P hP
+
+/-- `outputForSEQXFileWithFlags` returns only for a consistent sequence -/
+theorem seqxFlags_ok_consistent (s : Sequence) (d : Deferred SEQXPkg)
+    (h : s.outputForSEQXFileWithFlags = .ok d) : s.checkConsistency = .ok true := by
+  obtain ⟨P, hP⟩ := seqxFlags_ok_prepare s d h
+  exact prepare_ok_consistent s P hP
+
+/-- `a + b` returns only when BOTH operands are consistent (and their AWG settings compare equal);
+    the result is then `addCore a b` -/
+theorem add_ok_consistent (a b c : Sequence) (h : a.add b = .ok c) :
+    a.checkConsistency = .ok true ∧ b.checkConsistency = .ok true ∧
+      Dict.eqBy (· == ·) a.awgspecs b.awgspecs = true ∧ c = Sequence.addCore a b := by
+  unfold Sequence.add at h
+  split at h
+  · cases h
+  · cases h
+  · rename_i ha
+    split at h
+    · cases h
+    · cases h
+    · rename_i hb
+      split at h
+      · rename_i heq
+        simp only [Except.ok.injEq] at h
+        exact ⟨ha, hb, heq, h.symm⟩
+      · cases h
+
+/-- `repeatAndVarySequence` returns only for a consistent input sequence -/
+theorem repeatAndVary_ok_consistent (s out : Sequence) (lens : List Nat) (poss : List Int)
+    (vars : List Tools.Variation) (h : Tools.repeatAndVarySequence s lens poss vars = .ok out) :
+    s.checkConsistency = .ok true := by
+  unfold Tools.repeatAndVarySequence at h
+  split at h
+  · cases h
+  · cases h
+  · assumption
+
+/-- `makeVaryingSequence` hands out only a sequence that passed `checkConsistency` -/
+theorem makeVarying_ok_consistent (base : Element) (lens : List Nat) (vars : List Tools.Variation) (out : Sequence)
+    (h : Tools.makeVaryingSequence base lens vars = .ok out) : out.checkConsistency = .ok true := by
+  unfold Tools.makeVaryingSequence at h
+  split at h
+  · cases h
+  · split at h
+    · cases h
+    · split at h
+      · cases h
+      · split at h
+        · cases h
+        · split at h
+          · cases h
+          · cases h
+          · rename_i hcc
+            simp only [Except.ok.injEq] at h
+            rw [← h]; exact hcc
+
+/-- the gate as one statement: for a sequence on which `checkConsistency` does not return True
+    (it returns False or raises), none of the operations returns -/
+theorem gate (s : Sequence) (h : s.checkConsistency ≠ .ok true) :
+    (∀ d f t, (s.forge d f t).toOption = none) ∧ s.channels.toOption = none ∧
+    s.prepareForOutputting.toOption = none ∧ s.outputForAWGFile.toOption = none ∧
+    s.outputForSEQXFile.toOption = none ∧ s.outputForSEQXFileWithFlags.toOption = none ∧
+    (∀ b : Sequence, (s.add b).toOption = none) ∧ (∀ a : Sequence, (a.add s).toOption = none) ∧
+    (∀ lens poss vars, (Tools.repeatAndVarySequence s lens poss vars).toOption = none) := by
+  have none_of : ∀ {α : Type} (x : Except Err α), (∀ v, x = .ok v → False) → x.toOption = none := by
+    intro α x hx
+    cases x with
+    | error e => rfl
+    | ok v => exact absurd rfl (fun hh => hx v hh)
+  refine ⟨fun d f t => none_of _ (fun v hv => h (forge_ok_consistent s d f t v hv)),
+    none_of _ (fun v hv => h (channels_ok_consistent s v hv)),
+    none_of _ (fun v hv => h (prepare_ok_consistent s v hv)),
+    none_of _ (fun v hv => h (awg_ok_consistent s v hv)),
+    none_of _ (fun v hv => h (seqx_ok_consistent s v hv)),
+    none_of _ (fun v hv => h (seqxFlags_ok_consistent s v hv)),
+    fun b => none_of _ (fun v hv => h (add_ok_consistent s b v hv).1),
+    fun a => none_of _ (fun v hv => h (add_ok_consistent a s v hv).2.1),
+    fun lens poss vars => none_of _ (fun v hv => h (repeatAndVary_ok_consistent s v lens poss vars hv))⟩
+
+/-! ### required settings -/
+
+/-- `_prepareForOutputting` (hence both output methods) returns only if the sequencing entries are
+    keyed exactly by the positions 1..N (in any order) and every channel of `Sequence.channels` has
+    an amplitude setting; it then holds one forged element per position -/
+theorem prepare_ok_settings (s : Sequence) (P : List (Dict Chan ChOutF)) (h : s.prepareForOutputting = .ok P) :
+    ∃ chans, s.channels = .ok chans ∧
+      (Dict.keys s.sequencing).Perm (oneTo s.data.length) ∧
+      (∀ ch ∈ chans, Dict.has s.awgspecs (keyOf ch "amplitude") = true) ∧
+      P.length = s.data.length ∧ 0 < P.length := by
+  obtain ⟨en, chans, _, _, _, hcc, hen, hchans, hseq, hamp, _⟩ := G3.prepare_inv s P h
+  obtain ⟨chans', hch', hlen, hpos, _⟩ := G3.prepare_cells s P h
+  have hch : s.channels = .ok chans := by rw [G3.channels_of_consistent s en hcc hen, hchans]
+  refine ⟨chans, hch, ?_, hamp, hlen, hpos⟩
+  rw [← hseq]
+  exact (sortBy_perm _).symm
+
+/-- sequencing entries that do not match the positions: ValueError -/
+theorem prepare_refuses_sequencing (s : Sequence) (chans : List Chan) (hch : s.channels = .ok chans)
+    (hseq : ¬ (Dict.keys s.sequencing).Perm (oneTo s.data.length)) :
+    s.prepareForOutputting = .error .value := by
+  obtain ⟨hcc, en, hen, hchans⟩ := G3.channels_inv s chans hch
+  have hne : sortBy (fun a b => decide (a ≤ b)) (Dict.keys s.sequencing) ≠ oneTo s.data.length := by
+    intro he
+    apply hseq
+    rw [← he]
+    exact (sortBy_perm _).symm
+  simp [Sequence.prepareForOutputting, hcc, hen, hchans, hne]
+
+/-- a channel without amplitude setting: KeyError -/
+theorem prepare_refuses_no_amplitude (s : Sequence) (chans : List Chan) (hch : s.channels = .ok chans)
+    (hseq : (Dict.keys s.sequencing).Perm (oneTo s.data.length))
+    (ch : Chan) (hmem : ch ∈ chans) (hno : Dict.has s.awgspecs (keyOf ch "amplitude") = false) :
+    s.prepareForOutputting = .error .key := by
+  obtain ⟨hcc, en, hen, hchans⟩ := G3.channels_inv s chans hch
+  have he : sortBy (fun a b => decide (a ≤ b)) (Dict.keys s.sequencing) = oneTo s.data.length := by
+    apply List.Perm.eq_of_pairwise' (r := (· ≤ ·)) (sortBy_sorted _) (oneTo_sorted _)
+    exact (sortBy_perm _).trans hseq
+  have hany : chans.any (fun ch => !(Dict.has s.awgspecs (keyOf ch "amplitude"))) = true := by
+    simp only [List.any_eq_true, Bool.not_eq_true']
+    exact ⟨ch, hmem, hno⟩
+  simp only [Sequence.prepareForOutputting, hcc, hen, hchans, he, ne_eq, not_true_eq_false, if_false]
+  rw [if_pos hany]
+
+/-- `outputForAWGFile` returns only if every channel of `Sequence.channels` has a *numeric*
+    amplitude and a *numeric* offset (a missing offset is a ValueError, a non-numeric setting a
+    TypeError) -/
+theorem awg_ok_settings (s : Sequence) (d : Deferred AWGPkg) (h : s.outputForAWGFile = .ok d) :
+    ∃ chans, s.channels = .ok chans ∧
+      ∀ ch ∈ chans, (∃ a, s.specNum (keyOf ch "amplitude") = some a) ∧ (∃ o, s.specNum (keyOf ch "offset") = some o) := by
+  unfold Sequence.outputForAWGFile at h
+  split at h
+  · cases h
+  · rename_i P hP
+    obtain ⟨chans, hch, hlen, hpos, _⟩ := G3.prepare_cells s P hP
+    obtain ⟨hcc, en, hen, hchans⟩ := G3.channels_inv s chans hch
+    refine ⟨chans, hch, ?_⟩
+    rw [hen] at h
+    simp only [hchans] at h
+    split at h
+    · cases h
+    · split at h
+      · cases h
+      · rename_i checked hchecked
+        intro ch hmem
+        have hz : 0 < (P.zip (List.range P.length)).length := by simp; exact hpos
+        have hl := mapM_ok_length _ _ _ hchecked
+        have e0 := mapM_ok_getElem _ _ _ hchecked 0 hz (by omega)
+        obtain ⟨k, hk, rfl⟩ := List.getElem_of_mem hmem
+        have hl0 := mapM_ok_length _ _ _ e0
+        have ek := mapM_ok_getElem _ _ _ e0 k hk (by omega)
+        unfold Sequence.awgCheckWave at ek
+        split at ek
+        · cases ek
+        · rename_i a ha
+          split at ek
+          · cases ek
+          · rename_i o ho
+            exact ⟨⟨a, ha⟩, ⟨o, ho⟩⟩
+
+/-- `outputForSEQXFile` returns only if every channel of `Sequence.channels` has a numeric amplitude -/
+theorem seqx_ok_settings (s : Sequence) (d : Deferred SEQXPkg) (h : s.outputForSEQXFile = .ok d) :
+    ∃ chans, s.channels = .ok chans ∧ ∀ ch ∈ chans, ∃ a, s.specNum (keyOf ch "amplitude") = some a := by
+  unfold Sequence.outputForSEQXFile at h
+  split at h
+  · cases h
+  · rename_i P hP
+    obtain ⟨chans, hch, hlen, hpos, _⟩ := G3.prepare_cells s P hP
+    obtain ⟨hcc, en, hen, hchans⟩ := G3.channels_inv s chans hch
+    refine ⟨chans, hch, ?_⟩
+    rw [hen] at h
+    simp only [hchans] at h
+    split at h
+    · cases h
+    · rename_i amps hamps
+      intro ch hmem
+      obtain ⟨k, hk, rfl⟩ := List.getElem_of_mem hmem
+      have hl := mapM_ok_length _ _ _ hamps
+      have ek := mapM_ok_getElem _ _ _ hamps k hk (by omega)
+      split at ek
+      · rename_i q hq; exact ⟨q, hq⟩
+      · cases ek
+
+/-- a channel without offset setting: `outputForAWGFile` raises ValueError -/
+theorem awg_refuses_no_offset (s : Sequence) (P : List (Dict Chan ChOutF)) (hP : s.prepareForOutputting = .ok P)
+    (chans : List Chan) (hch : s.channels = .ok chans)
+    (ch : Chan) (hmem : ch ∈ chans) (hno : Dict.has s.awgspecs (keyOf ch "offset") = false) :
+    s.outputForAWGFile = .error .value := by
+  obtain ⟨hcc, en, hen, hchans⟩ := G3.channels_inv s chans hch
+  have hany : chans.any (fun ch => !(Dict.has s.awgspecs (keyOf ch "offset"))) = true := by
+    simp only [List.any_eq_true, Bool.not_eq_true']
+    exact ⟨ch, hmem, hno⟩
+  simp only [Sequence.outputForAWGFile, hP, hen, hchans]
+  rw [if_pos hany]
+
+/-! ### never partial output -/
+
+/-- `outputForAWGFile` never returns partial output: whenever a later exception is pending
+    (`thenErr`), there is no package; and when none is pending, the package is there -/
+theorem awg_never_partial (s : Sequence) (d : Deferred AWGPkg) (h : s.outputForAWGFile = .ok d) :
+    (d.thenErr ≠ none → d.pkg = none) ∧ (d.thenErr = none → d.pkg ≠ none) := by
+  unfold Sequence.outputForAWGFile at h
+  split at h
+  · cases h
+  · split at h
+    · cases h
+    · split at h
+      · cases h
+      · split at h
+        · cases h
+        · split at h
+          · cases h
+          · simp only at h
+            split at h
+            · split at h
+              · cases h
+              · cases h; simp
+            · split at h
+              · cases h
+              · cases h; simp
+
+/-- `outputForSEQXFile` never returns partial output -/
+theorem seqx_never_partial (s : Sequence) (d : Deferred SEQXPkg) (h : s.outputForSEQXFile = .ok d) :
+    (d.thenErr ≠ none → d.pkg = none) ∧ (d.thenErr = none → d.pkg ≠ none) := by
+  unfold Sequence.outputForSEQXFile at h
+  split at h
+  · cases h
+  · split at h
+    · cases h
+    · split at h
+      · cases h
+      · split at h
+        · cases h
+        · split at h
+          · cases h
+          · split at h
+            · split at h
+              · cases h
+              · cases h; simp
+            · cases h; simp
+
+/-- `outputForSEQXFileWithFlags` never returns partial output -/
+theorem seqxFlags_never_partial (s : Sequence) (d : Deferred SEQXPkg) (h : s.outputForSEQXFileWithFlags = .ok d) :
+    (d.thenErr ≠ none → d.pkg = none) ∧ (d.thenErr = none → d.pkg ≠ none) := by
+  unfold Sequence.outputForSEQXFileWithFlags at h
+  split at h
+  · cases h
+  · split at h
+    · cases h
+    · split at h
+      · cases h
+      · split at h
+        · cases h
+        · split at h
+          · cases h
+          · rename_i d0 hd0
+            cases h
+            obtain ⟨h1, h2⟩ := seqx_never_partial s d0 hd0
+            constructor
+            · intro hne; simp [h1 hne]
+            · intro hn
+              have := h2 hn
+              cases hp : d0.pkg with
+              | none => exact absurd hp this
+              | some p => simp
+
+/-! ### no sample rate -/
+
+/-- no sample rate: the output methods, the `channels` query, `+` (either operand) and
+    `repeatAndVarySequence` raise KeyError as well -/
+theorem no_SR_raises_all (s : Sequence) (h : Dict.has s.awgspecs "SR" = false) :
+    s.channels = .error .key ∧ s.outputForAWGFile = .error .key ∧ s.outputForSEQXFile = .error .key ∧
+      s.outputForSEQXFileWithFlags = .error .key ∧ (∀ b : Sequence, s.add b = .error .key) ∧
+      (∀ a : Sequence, a.checkConsistency = .ok true → a.add s = .error .key) ∧
+      (∀ lens poss vars, Tools.repeatAndVarySequence s lens poss vars = .error .key) := by
+  obtain ⟨hc, _, hp⟩ := no_SR_raises s h
+  refine ⟨?_, ?_, ?_, ?_, ?_, ?_, ?_⟩
+  · simp [Sequence.channels, hc, bind, Except.bind]
+  · simp [Sequence.outputForAWGFile, hp]
+  · simp [Sequence.outputForSEQXFile, hp]
+  · simp [Sequence.outputForSEQXFileWithFlags, hp]
+  · intro b; simp [Sequence.add, hc]
+  · intro a ha; simp [Sequence.add, ha, hc]
+  · intro lens poss vars; simp [Tools.repeatAndVarySequence, hc]
+
+/-! ### channel lists are compared as sets-with-multiplicity -/
+
+/-- two channel lists compare equal after `_channelListSorter` exactly when they are permutations
+    of each other -/
+theorem channelListSorter_eq_iff_perm (a b : List Chan) :
+    channelListSorter a = channelListSorter b ↔ a.Perm b :=
+  ⟨G3.perm_of_channelListSorter_eq, G3.channelListSorter_of_perm⟩
+
+example : channelListSorter [.str "b", .int 2, .str "a", .int 1] = [.int 1, .int 2, .str "a", .str "b"] := by
+  decide +kernel
+
 /-! ### non-vacuity: positions added as 2, 1 are consistent; 1, 3 are not -/
 
 example : gapFree [2, 1] = true ∧ gapFree [1, 3] = false ∧ gapFree [3, 1, 2] = true := by decide +kernel
+
+/-! ### non-vacuity of the gate / settings theorems (concrete sequences of `BB.G3.Ex`) -/
+
+/-- the hypotheses of the `*_ok_consistent` theorems are satisfiable: on the two-position example
+    (positions added as 2, 1; channels 1 and "A") every gated operation returns -/
+example : (G3.Ex.seq.forge true true false).toOption.isSome = true ∧ G3.Ex.seq.channels.toOption.isSome = true ∧
+    G3.Ex.seq.prepareForOutputting.toOption.isSome = true ∧ G3.Ex.seq.outputForAWGFile.toOption.isSome = true ∧
+    (G3.Ex.seq.add G3.Ex.seq).toOption.isSome = true := by decide +kernel
+
+/-- `repeatAndVarySequence` and `makeVaryingSequence` return on a blueprint example -/
+example : (Tools.repeatAndVarySequence G3.Ex.bpSeq [1, 1, 1, 1, 1] [1] [G3.Ex.bpVar]).toOption.isSome = true ∧
+    (Tools.makeVaryingSequence G3.Ex.bpEl [1, 1, 1, 1] [G3.Ex.bpVar]).toOption.isSome = true := by decide +kernel
+
+/-- `gate`: a sequence with a hole (positions 1, 3) is not consistent, one without SR raises -/
+example : G3.Ex.seqHole.checkConsistency ≠ .ok true ∧ G3.Ex.seqNoSR.checkConsistency ≠ .ok true := by
+  have h1 : G3.Ex.seqHole.checkConsistency.toOption = some false := by decide +kernel
+  have h2 : G3.Ex.seqNoSR.checkConsistency.toOption = none := by decide +kernel
+  constructor
+  · intro h; rw [h] at h1; cases h1
+  · intro h; rw [h] at h2; cases h2
+
+/-- `prepare_ok_settings`, `awg_ok_settings`, `awg_never_partial`, `awg_ok_prepare`: instance of the hypothesis -/
+example : ∃ P d, G3.Ex.seq.prepareForOutputting = .ok P ∧ G3.Ex.seq.outputForAWGFile = .ok d := by
+  obtain ⟨d, _, h, _⟩ := G3.Ex.seq_awg_ok
+  exact ⟨_, d, G3.Ex.seq_prepare, h⟩
+
+/-- `prepare_refuses_sequencing` applied: sequencing entries keyed 1, 3 for positions 1, 2 -/
+example : G3.Ex.seqBadKeys.prepareForOutputting = .error .value :=
+  prepare_refuses_sequencing G3.Ex.seqBadKeys G3.Ex.chans (G3.toOption_eq_some _ _ (by decide +kernel)) (by decide)
+
+/-- `prepare_refuses_no_amplitude` applied: channel "A" without amplitude -/
+example : G3.Ex.seqNoAmp.prepareForOutputting = .error .key :=
+  prepare_refuses_no_amplitude G3.Ex.seqNoAmp G3.Ex.chans (G3.toOption_eq_some _ _ (by decide +kernel)) (by decide)
+    (.str "A") (by decide) (by decide +kernel)
+
+/-- `awg_refuses_no_offset` applied: channel "A" without offset -/
+example : G3.Ex.seqNoOff.outputForAWGFile = .error .value :=
+  awg_refuses_no_offset G3.Ex.seqNoOff _ (G3.Ex.prepare_eq _ (by decide +kernel)) G3.Ex.chans
+    (G3.toOption_eq_some _ _ (by decide +kernel)) (.str "A") (by decide) (by decide +kernel)
+
+/-- `no_SR_raises_all`: instance of the hypothesis -/
+example : Dict.has G3.Ex.seqNoSR.awgspecs "SR" = false := by decide +kernel
 
 end BB.C07
